@@ -227,6 +227,39 @@ def ringOp (op : String) (poly : Bool) (m : Nat) (a b : List Nat) : List Nat :=
   | "mul" | "mulplain" => mul a b
   | _ => if n = 0 then [] else mul a a
 
+
+/-! ### BOLT slot packing -/
+
+def addT (t : Nat) (a b : Nat) : Nat := (a + b) % t
+def mulT (t : Nat) (a b : Nat) : Nat := (a * b) % t
+
+/-- gather form of the column-major layout shared by `bolt_cp` / `bolt_cc_cr` inputs and `bolt_cp` / `bolt_cc_dc` outputs:
+    slot `p` of polynomial `i` of row part `q` holds entry (row `q·m + p mod gap`, column `i·s + p / gap`) -/
+def specColMajor (N gap s m mAll width : Nat) (X : List Nat) : List (List (Array Nat)) :=
+  let xa := X.toArray
+  (List.range (ceilDiv mAll m)).map fun q => (List.range (ceilDiv width s)).map fun i =>
+    Array.ofFn (n := N) fun p =>
+      let j := p.val % gap; let c := i * s + p.val / gap
+      if j < m ∧ q * m + j < mAll ∧ p.val / gap < s ∧ c < width then xa.getD ((q * m + j) * width + c) 0 else 0
+
+def boltCpRun (h : BoltCp) (t : Nat) (X W : List Nat) : R (Array Nat) := do
+  let xe ← boltCpEncodeInputs h 0 (accA X.toArray) X.length
+  let we ← boltCpEncodeWeights h 0 (accA W.toArray) W.length
+  let y ← boltCpMultiply h (addT t) (mulT t) 0 xe we
+  boltCpDecodeOutputs h 0 y
+
+def boltCrRun (h : BoltCc) (t : Nat) (X W : List Nat) : R (Array Nat) := do
+  let xe ← boltCrEncodeInputs h 0 (accA X.toArray) X.length
+  let we ← boltCrEncodeWeights h 0 (accA W.toArray) W.length
+  let y ← boltCrMultiply h (addT t) (mulT t) 0 xe we
+  boltCrDecodeOutputs h 0 y
+
+def boltDcRun (h : BoltCc) (t : Nat) (X W : List Nat) : R (Array Nat) := do
+  let xe ← boltDcEncodeInputs h 0 (accA X.toArray) X.length
+  let we ← boltDcEncodeWeights h 0 (accA W.toArray) W.length
+  let y ← boltDcMultiply h (addT t) (mulT t) 0 xe we
+  boltDcDecodeOutputs h 0 y
+
 def handle (fn : String) : Handler := fun a impl =>
   match fn, a with
   | "mm_blocks", [N, bs, id, od, obj, pack] =>
@@ -302,6 +335,53 @@ def handle (fn : String) : Handler := fun a impl =>
             let cc := (List.range k).map fun i => ringOp op poly (ts.getD i 1) (ca.getD i []) (cb.getD i [])
             rnsMerge b cc n),
           fList (wordsOf k (ringOp op poly T va vb)))
+  | "bolt_cp_encx", [N, _t, m, r, n, X] =>
+    let X := pList X
+    let h := BoltCp.new (pNat m) (pNat r) (pNat n) (pNat N)
+    some (fR fP2 (do let h ← h; boltCpEncodeInputs h 0 (accA X.toArray) X.length),
+          fR (fun h => fP2 (specColMajor h.N h.gap h.s h.m h.mAll h.r X)) h)
+  | "bolt_cp_enco", [N, _t, m, r, n, Y] =>
+    let Y := pList Y
+    let h := BoltCp.new (pNat m) (pNat r) (pNat n) (pNat N)
+    some (fR fP2 (do let h ← h; boltCpEncodeOutputs h 0 (accA Y.toArray) Y.length),
+          fR (fun h => fP2 (specColMajor h.N h.gap h.s h.m h.mAll h.n Y)) h)
+  | "bolt_cp_encw", [N, _t, m, r, n, W] =>
+    let W := pList W
+    some (fR fP2 (do let h ← BoltCp.new (pNat m) (pNat r) (pNat n) (pNat N); boltCpEncodeWeights h 0 (accA W.toArray) W.length), impl)
+  | "bolt_cp_run", [N, t, m, r, n, X, W] =>
+    let t := pNat t; let X := pList X; let W := pList W
+    some (fR (fun (r : Array Nat) => fList r.toList) (do let h ← BoltCp.new (pNat m) (pNat r) (pNat n) (pNat N); boltCpRun h t X W),
+          fList (specMatmul t (pNat m) (pNat r) (pNat n) X W []))
+  | "bolt_cccr_encx", [N, _t, m, r, n, X] =>
+    let X := pList X
+    let h := BoltCc.newCr (pNat m) (pNat r) (pNat n) (pNat N)
+    some (fR fP2 (do let h ← h; boltCrEncodeInputs h 0 (accA X.toArray) X.length),
+          fR (fun h => fP2 (specColMajor h.N h.gap h.gsc h.m h.mAll h.r X)) h)
+  | "bolt_cccr_encw", [N, _t, m, r, n, W] =>
+    let W := pList W
+    some (fR fP2 (do let h ← BoltCc.newCr (pNat m) (pNat r) (pNat n) (pNat N); boltCrEncodeWeights h 0 (accA W.toArray) W.length), impl)
+  | "bolt_cccr_enco", [N, _t, m, r, n, Y] =>
+    let Y := pList Y
+    some (fR fP2 (do let h ← BoltCc.newCr (pNat m) (pNat r) (pNat n) (pNat N); boltCrEncodeOutputs h 0 (accA Y.toArray) Y.length), impl)
+  | "bolt_cccr_run", [N, t, m, r, n, X, W] =>
+    let t := pNat t; let X := pList X; let W := pList W
+    some (fR (fun (r : Array Nat) => fList r.toList) (do let h ← BoltCc.newCr (pNat m) (pNat r) (pNat n) (pNat N); boltCrRun h t X W),
+          fList (specMatmul t (pNat m) (pNat r) (pNat n) X W []))
+  | "bolt_ccdc_encx", [N, _t, m, r, n, X] =>
+    let X := pList X
+    some (fR fP2 (do let h ← BoltCc.newDc (pNat m) (pNat r) (pNat n) (pNat N); boltDcEncodeInputs h 0 (accA X.toArray) X.length), impl)
+  | "bolt_ccdc_encw", [N, _t, m, r, n, W] =>
+    let W := pList W
+    some (fR fP2 (do let h ← BoltCc.newDc (pNat m) (pNat r) (pNat n) (pNat N); boltDcEncodeWeights h 0 (accA W.toArray) W.length), impl)
+  | "bolt_ccdc_enco", [N, _t, m, r, n, Y] =>
+    let Y := pList Y
+    let h := BoltCc.newDc (pNat m) (pNat r) (pNat n) (pNat N)
+    some (fR fP2 (do let h ← h; boltDcEncodeOutputs h 0 (accA Y.toArray) Y.length),
+          fR (fun h => fP2 (specColMajor h.N h.gap h.gsc h.m h.mAll h.nAll Y)) h)
+  | "bolt_ccdc_run", [N, t, m, r, n, X, W] =>
+    let t := pNat t; let X := pList X; let W := pList W
+    some (fR (fun (r : Array Nat) => fList r.toList) (do let h ← BoltCc.newDc (pNat m) (pNat r) (pNat n) (pNat N); boltDcRun h t X W),
+          fList (specMatmul t (pNat m) (pNat r) (pNat n) X W []))
   | _, _ => none
 
 end Drv.C20
